@@ -36,14 +36,14 @@ ASSUMPTIONS = {'C07': ['lamb > 0 (as in the quantifier); shapes d<=5, n_k<=5, ra
                        'the measured response of the same map to 1e-9 relative noise in y (3 probes) with a floor of 1e-10 relative']}
 EXPECTED_PROBES = {'C07': ['restart_bitwise', 'single_sample_slice_row0', 'cancelled_by_cb', 'permuted_restart', 'order_checked',
                            'optimality_checked', 'descent_checked', 'rank_adaptive', 'missing_slice_rejected', 'skip_cores_unchanged',
-                           'als_func_runs', 'weights', 'stop_e', 'stop_e_vld']}
+                           'als_func_runs', 'weights', 'stop_e', 'stop_e_vld', 'func_mode_size_reduced']}
 BUDGET = {'C07': {'quick': {'n': 1500, 'max_s': 150, 'chunk': 10}, 'thorough': {'n': 120000, 'max_s': 3000, 'chunk': 25}}}
 
 
 # ------------------------------------------------------------------ scenario generation
 
 def generate(rng, prop, tier):
-    kind = rng.choice(['als', 'als', 'als', 'als_func', 'contract'])
+    kind = rng.choice(['als', 'als', 'als', 'als_func', 'als_func', 'contract', 'contract'])
     d = rng.choice([2, 2, 3, 3, 4, 5])
     if kind == 'als_func':
         nn = rng.choice([2, 3, 3, 4])
@@ -59,7 +59,7 @@ def generate(rng, prop, tier):
         'w': rng.random() < 0.3,
         'ydist': rng.choice(['tt', 'normal', 'const']),
         'single': None,
-        'basis': rng.choice(['cheb', 'own']),
+        'basis': rng.choice(['cheb', 'own', 'ownlist']),
         'ab': rng.choice([[-1.0, 1.0], [0.0, 2.0], [-3.0, 0.5]]),
         'log': rng.random() < 0.05,
     }
@@ -80,8 +80,23 @@ def generate(rng, prop, tier):
                      'jump': rng.choice([0.0, 0.0, 1e5, -1e5])})
     sc['plan'] = plan
     sc['share_info'] = rng.random() < 0.4        # one progress record (info dict) reused across all segments / restarts
+    if kind == 'als_func' and sc['basis'] == 'ownlist':
+        # a list of basis generators with a different number of functions per mode
+        sc['n'] = [rng.choice([2, 3, 4, 5, 6]) for _ in range(d)]
     if kind == 'contract':
-        sc['clause'] = rng.choice(['missing', 'skip', 'adaptive', 'stop_e', 'stop_e_vld'])
+        sc['clause'] = rng.choice(['missing', 'skip', 'adaptive', 'adaptive', 'stop_e', 'stop_e_vld', 'func_shrink', 'func_shrink'])
+        if sc['clause'] == 'func_shrink':
+            d = rng.choice([2, 3, 4])
+            sc['n'] = [rng.choice([3, 4, 5])] * d
+            sc['r'] = rng.randint(1, 2)
+            sc['m'] = rng.randint(20, 60)
+            sc['basis'] = 'cheb'
+            sc['ab'] = [-1.0, 1.0]
+            sc['thr_pow'] = rng.choice([1e-3, 1e-3, 1e-6])
+            sc['deg'] = rng.choice([0, 1, 1, 2])
+            sc['nswp'] = rng.randint(3, 9)
+            sc['lamb'] = rng.choice([1e-3, 1e-2])
+            sc['single'] = None
         if sc['clause'] == 'adaptive':
             d = rng.choice([3, 3, 4, 5])
             sc['n'] = [rng.choice([2, 3, 4]) for _ in range(d)]
@@ -89,6 +104,14 @@ def generate(rng, prop, tier):
             sc['rmax'] = sc['r'] + rng.randint(0, 3)
             sc['m'] = rng.choice([30, 60, 100])
             sc['single'] = None
+            if rng.random() < 0.5:
+                # structured data on the full grid whose local two-core solution has a group of equal singular values at the cut
+                k = rng.choice([3, 4])
+                sc['n'] = [k] * rng.choice([3, 3, 4])
+                sc['ydist'] = 'delta'
+                sc['rmax'] = rng.randint(1, k - 1)
+                sc['r'] = rng.randint(1, sc['rmax'])
+                sc['lamb'] = rng.choice([1e-6, 1e-3])
     return sc
 
 
@@ -139,6 +162,12 @@ def build_data(sc):
     else:
         I = X
         M = len(X)
+    if sc['ydist'] == 'delta':
+        import itertools
+        I = np.array(list(itertools.product(*[range(k) for k in n])), dtype=int)
+        I = I[g.permutation(len(I))]
+        y = (I[:, 0] == I[:, 1]).astype(float) * (1.0 + I[:, 2])
+        return I, y, None
     if sc['ydist'] == 'normal':
         y = g.standard_normal(M)
     elif sc['ydist'] == 'const':
@@ -154,10 +183,10 @@ def build_data(sc):
     return I, y, w
 
 
-def own_basis(sc):
-    """Simulator-owned basis: monomials in a shifted variable (well conditioned on [a,b])."""
+def own_basis(sc, k=0):
+    """Simulator-owned basis for mode k (its size is the mode size of the start tensor)."""
     a, b = sc['ab']
-    nn = sc['n'][0]
+    nn = sc['n'][k]
 
     def fh(x):
         t = (np.asarray(x, dtype=float) - a) / (b - a)
@@ -171,8 +200,8 @@ def basis_mats(sc, X):
     nn = sc['n'][0]
     H = []
     for k in range(X.shape[1]):
-        if sc['basis'] == 'own':
-            H.append(own_basis(sc)(X[:, k]).T)
+        if sc['basis'] in ('own', 'ownlist'):
+            H.append(own_basis(sc, k)(X[:, k]).T)
         else:
             t = np.clip((X[:, k] - (a + b) / 2) * (2 / (b - a)), -1, 1)
             H.append(np.polynomial.chebyshev.chebvander(t, nn - 1))
@@ -268,8 +297,8 @@ def run_job(sc, I, y, w, Y0, nswp, cb_at=None, jump=0.0, e=None, extra=None, kee
     class Clk:
         pass
     if sc['kind'] == 'als_func':
-        fh = own_basis(sc) if sc['basis'] == 'own' else None
-        kw = dict(a=sc['ab'][0], b=sc['ab'][1], nswp=nswp, e=e, info=o.info, lamb=sc['lamb'], fh=fh, thr_pow=0.0,
+        fh = own_basis(sc) if sc['basis'] == 'own' else ([own_basis(sc, k) for k in range(len(sc['n']))] if sc['basis'] == 'ownlist' else None)
+        kw = dict(a=sc['ab'][0], b=sc['ab'][1], nswp=nswp, e=e, info=o.info, lamb=sc['lamb'], fh=fh, thr_pow=sc.get('thr_pow', 0.0),
                   log=sc.get('log', False))
         if extra:
             kw.update(extra)
@@ -620,6 +649,40 @@ def execute_contract(sc):
             if o.info.get('stop') not in ('nswp', 'e', 'e_vld', 'cb'):
                 V.append(viol('stop', 'rank-adaptive run: info[stop]=%r' % o.info.get('stop')))
             h.append([G.tobytes() for G in (o.Y or [])])
+    elif cl == 'func_shrink':
+        # the functional version with its dynamic mode size switched on (thr_pow > 0) on low-degree data: trailing basis functions are dropped;
+        # the core updated last must still be the exact minimiser over the basis the result uses
+        scf = dict(sc, kind='als_func')
+        g = gen(sc['dseed'])
+        d = len(n)
+        X = g.uniform(-1, 1, (sc['m'], d))
+        yv = np.ones(sc['m'])
+        for k in range(d):
+            yv = yv + 0.5 * (k + 1) * X[:, k] ** sc['deg'] + 0.3 * X[:, k]
+        A0 = make_tt(n, sc['r'], sc['y0seed'], dist='uniform')
+        o = run_job(scf, X, yv, None, A0, sc['nswp'])
+        runs += 1
+        if o.abort is not None or o.exc is not None or o.Y is None:
+            V.append(viol('exception', 'als_func with thr_pow=%g raised %r %r' % (sc['thr_pow'], o.exc, o.abort)))
+        else:
+            why = wellformed_tt(o.Y)
+            sizes = [G.shape[1] for G in o.Y]
+            if why:
+                V.append(viol('shape', 'als_func with thr_pow=%g: %s' % (sc['thr_pow'], why)))
+            elif [G.shape[0] for G in o.Y] != [G.shape[0] for G in A0] or any(a > b for a, b in zip(sizes, n)):
+                V.append(viol('shape', 'als_func with thr_pow=%g returned core shapes %s for a start tensor %s' % (sc['thr_pow'], [G.shape for G in o.Y], [G.shape for G in A0])))
+            else:
+                if sizes != list(n):
+                    P('func_mode_size_reduced')
+                H = basis_mats(scf, X)
+                res = optimality_residual(scf, o.Y, X, yv, None, 1, H)
+                P('optimality_checked')
+                if not res <= 1e-8:
+                    V.append(viol('optimality', 'als_func (thr_pow=%g, mode sizes %s -> %s): core 1 (updated last) is not at the minimiser given the other cores: '
+                                  'normal-equation residual %.3e' % (sc['thr_pow'], list(n), sizes, res)))
+            if o.info.get('nswp') != sc['nswp'] or o.info.get('stop') != 'nswp':
+                V.append(viol('counter-nswp', 'als_func with thr_pow: info[nswp]=%r stop=%r for nswp=%d' % (o.info.get('nswp'), o.info.get('stop'), sc['nswp'])))
+            h.append([G.tobytes() for G in o.Y])
     elif cl == 'stop_e':
         # a threshold that is certainly met after the first sweep / certainly not met
         o = run_job(sc, I, y, w, Y0, 6, e=1e9)
